@@ -833,7 +833,18 @@ class ExprMixin(object):
                         return {"<": x < y, "<=": x <= y, ">": x > y, ">=": x >= y}[sym]
                     except TypeError:
                         return ERR
-                return fo.fold(cmpf, [a, b])
+                r_ = fo.fold(cmpf, [a, b])
+                errs_ = fo.fold(lambda x, y: cmpf(x, y) is ERR, [a, b])
+                if not (isinstance(errs_, Const) and not errs_.v):
+                    # operands that Python 3 refuses to order (None against a number, str against
+                    # int): TypeError there, an arbitrary but defined answer on Python 2.7
+                    self.event("unorderable_compare", node, module, st, what="%s between values of different kind (e.g. None and a number)" % sym)
+                    self.hazard(st, "TypeError", node, module, errs_, "'%s' not supported between these operands" % sym)
+                    if isinstance(errs_, Const):
+                        raise Dead()
+                    self.assume(st, mk_not(errs_))
+                    r_ = st.folder().restrict(r_) if isinstance(r_, Fin) else r_
+                return r_
         if (is_numeric(a) or isinstance(a, (P, App, Opaque))) and (is_numeric(b) or isinstance(b, (P, App, Opaque))):
             if strish(a) or strish(b):
                 if sym in ("==", "!="):
